@@ -414,6 +414,26 @@ pub fn cases(args: &Args) -> Vec<Case> {
             }
         }
     }
+    // what gc removes is tiny (a code entry of 3, 4, 5 or 13 bytes) and sits in front of, between or behind survivors
+    for &n in &[2usize, 3] {
+        for dead_pos in 0..=n {
+            for dead_nops in [0usize, 1, 2, 10] {
+                for locals_mode in [0u8, 2] {
+                    for range_form in ["offset", "addr"] {
+                        for edit in ["none", "gc"] {
+                            let wasm = wgen::families::build_leb_dead_at(n, 8, locals_mode, dead_pos, dead_nops);
+                            out.push(Case {
+                                family: "dwarf".into(),
+                                coords: format!("n={},size=8,locals={},unexported function of {} nops in front of #{}", n, locals_mode, dead_nops, dead_pos),
+                                wasm,
+                                cfg: json!({"version": 4, "file_index": 0, "one_sequence": false, "low_pc": "body", "edit": edit, "range_form": range_form}),
+                            });
+                        }
+                    }
+                }
+            }
+        }
+    }
     // the configuration-order case: preserve_code_transform(false) after generate_dwarf(true)
     for n in [1usize, 3] {
         for size in [8usize, 24, 130] {
